@@ -313,7 +313,8 @@ def args_parser_hlookup(val, vec, index, match_type=1, transpose=False):
     except IndexError:
         raise FoundError(err=Error.errors['#REF!'])
     vec = vec[0].A1.ravel()
-    return args_parser_lookup_array(val, vec, ref, bool(match_type))
+    match_type = match_type is not sh.EMPTY and bool(match_type)
+    return args_parser_lookup_array(val, vec, ref, match_type)
 
 
 FUNCTIONS['HLOOKUP'] = wrap_ufunc(
